@@ -72,7 +72,7 @@ class Sym:
     def __init__(self, mod, opaque=None, is_lib=None, max_depth=14, transparent_trunc=True):
         self.mod = mod
         self.opaque = re.compile(opaque) if opaque else None
-        self.is_lib = is_lib or (lambda f: "yorel::yomm2" in f.dname)
+        self.is_lib = is_lib or (lambda f: irq.is_lib_name(f.dname))
         self.max_depth = max_depth
         self.notes = []
         self.ctxs = {0: None}   # context id -> (function, binding): one per inlined call, so that
